@@ -75,6 +75,9 @@ structure Handler where
   deriving Repr, DecidableEq
 
 inductive TStatus where
+  /-- the caller waits for a slot of the outgoing-concurrency limiter (its future is
+      registered, the request is not sent yet, no timeout runs) -/
+  | queued
   | pending
   | answered
   | cancelled
@@ -124,6 +127,9 @@ structure S where
   reqTimeout : Nat := 30
   /-- `SessionBase.processing_timeout` -/
   procTimeout : Nat := 30
+  /-- the outgoing-concurrency limit (constant here: the recalibration of C20 is switched off
+      in the runs compared with this model) -/
+  outLimit : Nat := 50
   /-- a graceful `close()` of the asyncio transport never completes (the peer does not read):
       `connection_lost` comes only with `abort()` or when the link drops -/
   stalled : Bool := false
@@ -208,7 +214,25 @@ def cancelHandler (now : Nat) (h : Handler) : Handler :=
 def cancelTicket (t : Ticket) : Ticket :=
   match t.status with
   | .pending => { t with status := .cancelled }
+  | .queued => { t with status := .cancelled }
   | _ => t
+
+/-- how many requests hold a slot of the outgoing limiter -/
+def inflight (ts : List Ticket) : Nat := (ts.filter fun t => t.status == TStatus.pending).length
+
+/-- `free` slots of the outgoing limiter go to the callers queued first: each sends its request
+and starts its `timeout_after(sent_request_timeout)` now -/
+def promoteList (now rt : Nat) : Nat → List Ticket → List Ticket
+  | _, [] => []
+  | 0, ts => ts
+  | free + 1, t :: ts =>
+    match t.status with
+    | .queued => { t with status := .pending, deadline := now + rt } :: promoteList now rt free ts
+    | _ => t :: promoteList now rt (free + 1) ts
+
+/-- the limiter hands out its free slots -/
+def S.promote (s : S) : S :=
+  { s with tickets := promoteList s.now s.reqTimeout (s.outLimit - inflight s.tickets) s.tickets }
 
 def returnCloser (now : Nat) (c : Closer) : Closer :=
   match c.st with
@@ -304,9 +328,10 @@ transport delivers `connection_lost` a loop iteration later, after everything el
 then the TaskGroup exit may complete -/
 def S.tick (s : S) : S :=
   let s1 : S := { s with now := s.now + 1 }
-  let s2 : S := { s1 with tickets := s1.tickets.map (expireTicket s1.now),
-                          handlers := s1.handlers.map (fireHandler s1.now),
-                          closers := s1.closers.map (abortCloser s1.now) }
+  let s2 : S := S.promote
+    { s1 with tickets := s1.tickets.map (expireTicket s1.now),
+              handlers := s1.handlers.map (fireHandler s1.now),
+              closers := s1.closers.map (abortCloser s1.now) }
   if s1.anyDue then s2.doAbort.settle else s2.settle
 
 def S.advance (s : S) : Nat → S
@@ -344,8 +369,11 @@ def closerDeadline (fixed : Bool) (now fa pt : Nat) : Nat :=
 instant - after the `connection_lost` of a graceful close that completes, which then makes it
 void) -/
 def S.startCloser (s : S) (i d pdl : Nat) (immediate : Bool) : S :=
-  let s1 : S := { s with handlers := s.handlers ++ [⟨i, .closer d, .run, pdl⟩] }
-  if immediate then (S.transportClose s1).doAbort else S.transportClose s1
+  if immediate then
+    -- (the handler is through in this very instant: the abort, or the loss a completed
+    -- graceful close brought just before it, tears everything down)
+    (S.transportClose { s with handlers := s.handlers ++ [⟨i, .closer d, .done, pdl⟩] }).doAbort
+  else S.transportClose { s with handlers := s.handlers ++ [⟨i, .closer d, .run, pdl⟩] }
 
 /-- the handler of request `i` starts and runs until it first blocks -/
 def S.startHandler (s : S) (i : Nat) (k : HKind) : S :=
@@ -395,9 +423,12 @@ def step (s : S) : Event → S
   | .handlerCancel i => s.crash i
   | .outgoing k =>
     if usedTicket s k then s
-    else { s with tickets := s.tickets ++ [⟨k, .pending, s.now + s.reqTimeout, s.down⟩] }
+    else if inflight s.tickets < s.outLimit then
+      { s with tickets := s.tickets ++ [⟨k, .pending, s.now + s.reqTimeout, s.down⟩] }
+    else { s with tickets := s.tickets ++ [⟨k, .queued, 0, s.down⟩] }
   | .answer k =>
-    if s.closing || s.down then s else { s with tickets := s.tickets.map (answerTicket k) }
+    if s.closing || s.down then s
+    else S.promote { s with tickets := s.tickets.map (answerTicket k) }
   | .drop => S.lose { s with closing := true } .link
   | .appClose c fa =>
     if usedCloser s c then s
@@ -418,11 +449,12 @@ def run (s : S) : List Event → S
   | [] => s
   | e :: es => run (step s e) es
 
-def init (reqTimeout procTimeout : Nat) (stalled : Bool) : S :=
-  { reqTimeout := reqTimeout, procTimeout := procTimeout, stalled := stalled }
+def init (reqTimeout procTimeout outLimit : Nat) (stalled : Bool) : S :=
+  { reqTimeout := reqTimeout, procTimeout := procTimeout, outLimit := outLimit, stalled := stalled }
 
 /-- the same connection with the code as pinned (without repair F25) -/
-def initPinned (reqTimeout procTimeout : Nat) (stalled : Bool) : S :=
-  { reqTimeout := reqTimeout, procTimeout := procTimeout, stalled := stalled, fixed := false }
+def initPinned (reqTimeout procTimeout outLimit : Nat) (stalled : Bool) : S :=
+  { reqTimeout := reqTimeout, procTimeout := procTimeout, outLimit := outLimit,
+    stalled := stalled, fixed := false }
 
 end Aiorpcx.C08
